@@ -170,7 +170,7 @@ func checkSem(c *core.Ctx, sp semProp) error {
 	}
 	c.Assume("TLC, the Go compiler and runtime, reflect/unsafe materialisation in the driver (self-checked: materialise->project is the identity on every pool value in every run)")
 	c.Assume("leaf tokens: Go's == and < on the concrete literals agree with the TLA+ rank table (checked at start-up with plain Go comparisons)")
-	c.Assume("NaN and cyclic values are outside the statement; user-declared methods: one fixture family (Equal/Compare/Hash look at the first field only; every receiver x argument form), as components only")
+	c.Assume("NaN and cyclic values are outside the statement; user-declared methods: one fixture family (Equal/Compare/Hash look at the first field only; every receiver x argument form), as components only; where a component's user Compare returns a difference (fixture kind pd) derived Compare legitimately leaves {-1,0,1}: only its sign is judged there")
 	return nil
 }
 
